@@ -81,7 +81,19 @@ func VxC07_InvCDF() {
 	inv := InvCDF(d)
 	y, y2 := vx.Float("y"), vx.Float("y2")
 	vx.Assume(!math.IsNaN(y)) // the statement's domain is real y
+	if !vx.Engine() {
+		// native replay: the quantile function is a function - many earlier calls do not change its answers
+		first := inv(y)
+		for i := 0; i < 3000; i++ {
+			inv(0.5)
+			inv(y2)
+		}
+		again := inv(y)
+		vx.Assert(vx.SameBits(first, again) || (math.IsNaN(first) && math.IsNaN(again)), "the returned quantile function keeps no state between calls")
+	}
+	vx.Epoch()
 	x := inv(y)
+	vx.Assert(vx.NoSharedWrites(), "the returned quantile function keeps no state between calls")
 	n := len(d.xs)
 	switch {
 	case math.IsNaN(y) || y < 0 || y > 1:
